@@ -51,7 +51,7 @@ def encode_resp(r):
     if kind == 15:
         return b"\xc7\x01" + iidb + bytes([code]) + b"\x01\x00" + data
     if kind == 16:
-        return b"\xc7\x01" + iidb + bytes([code or 1]) + b"\x01\x01\x03"
+        return b"\xc7\x01" + iidb + bytes([code]) + b"\x01\x01\x03"      # status (possibly SUCCESS) + data-access-result error 3
     if kind == 18:
         return b"\xd8\x01\x01"
     if kind == 17:
@@ -174,7 +174,7 @@ def make_session(r, ctx, nops):
             ops.append(2)
             expect.append(("adata", d) if st == 0 else ("raise",))
         elif kind == "action_err":
-            responses.append([16, b"", 0, iid, r.choice([1, 3])])
+            responses.append([16, b"", 0, iid, r.choice([0, 0, 1, 3])])        # an error as return parameters raises even with status SUCCESS
             ops.append(2)
             expect.append(("raise",))
         else:
